@@ -291,7 +291,7 @@ func checkC12(r *Run) {
 	}
 	r.Stats["packages"] = len(p.Repo)
 	r.Rule("C12.R1.atomic", "a function that takes a snapshot with CopyState() and publishes a state with SetState() holds one mutex across both calls", 4)
-	r.Rule("C12.R2.direction", "the local record is overwritten (or sent back) only across an edge that proves it is missing or less advanced than the other side's, with the received/local roles as stated", 4)
+	r.Rule("C12.R2.direction", "the local record is overwritten (or sent back / requested) only under an assignment of the four facts (local more advanced, remote more advanced, known locally, known remotely) that licenses that store - decided as a truth table over the whole function, with the received/local roles as stated", 4)
 	r.Rule("C12.R2.exchange", "ack merges the peer's records on every path; ack2 merges; the sync handler returns sync's answer; GossipOnceWith feeds the peer's ack to ack", 4)
 	r.Rule("C12.R4.restart", "cluster.Open restarts the host heartbeat on every path that found persisted state, and on every success path from there the state is flushed synchronously (goFlushStore's FlushSync of CopyState()) afterwards: the new generation is on disk before Open returns", 3)
 	r.Rule("C12.R2.complete", "gossip.sync compares every received digest with the local record (no digest is skipped before the comparison) and, on every path, runs the pass that volunteers the members the initiator sent no digest for", 2)
